@@ -29,6 +29,13 @@ ASSUMED = {
     "dict": "dict lookup raises KeyError iff the key is absent; insertion order iteration",
     "fractions.Fraction": "Fraction is an exact rational: + - * exact, / and % raise ZeroDivisionError iff divisor is 0",
     "str.lower": "str.lower is an uninterpreted per-string function unless the string is concrete",
+    "str.split": "s.split(c) for a one-character c: >= 1 components, none contains c, one component iff c not in s "
+                 "(then it is s), s starts with the first and ends with the last component (canonical function of s)",
+    "str.join": "c.join(seq) for a one-character c is a function of the sequence; splitting it at c gives the sequence "
+                "back when it is non-empty and no element contains c",
+    "str.strip": "str.strip is an uninterpreted per-string function unless the string is concrete",
+    "pathlib (pure paths)": "a path is an opaque value with .parent / .stem / .name / .parts as uninterpreted functions; "
+                            "Path(p) of a path is that path; nothing about the file system is modelled",
 }
 
 BUILTIN_FUNCS = {
@@ -77,6 +84,8 @@ class Lib:
 
     # ------------------------------------------------------------------ attribute access on non-repo values
     def getattr(self, ctx, o, name: str):
+        if isinstance(o, V.PathV):
+            return self.path_attr(ctx, o, name)
         if isinstance(o, V.FractionV):
             if name == "denominator":
                 d = self.e.uf("frac!den", z3.RealSort(), z3.IntSort())(o.term)
@@ -86,6 +95,15 @@ class Lib:
                 n = self.e.uf("frac!num", z3.RealSort(), z3.IntSort())(o.term)
                 ctx.assume(z3.Implies(z3.IsInt(o.term), z3.ToReal(n) == o.term))
                 return n
+        if isinstance(o, (V.ExtModule, V.Builtin)) and getattr(o, "bound", None) is None and o.name == "string" \
+                and name in ("ascii_letters", "ascii_lowercase", "ascii_uppercase", "digits", "hexdigits", "octdigits"):
+            import string as _string
+
+            return getattr(_string, name)  # constants of the running interpreter's `string` module
+        from . import strmodel as _sm
+
+        if isinstance(o, _sm.RegexV):
+            return V.Builtin("method." + name, bound=o)
         if isinstance(o, V.ExtModule):
             return V.Builtin(o.name + "." + name)
         if isinstance(o, V.Builtin) and o.bound is None:
@@ -398,6 +416,16 @@ class Lib:
 
     # ------------------------------------------------------------------ comparisons
     def order(self, ctx, op, a, b):
+        if isinstance(a, OptV) or isinstance(b, OptV):
+            # None is not orderable (TypeError); a present value compares as itself
+            vals = []
+            for x in (a, b):
+                if isinstance(x, OptV):
+                    if ctx.decide(lift(self.e, ctx, x.is_none)):
+                        raise self.raise_ext("TypeError")
+                    x = x.val
+                vals.append(x)
+            a, b = vals
         if isinstance(a, V.Opaque) or isinstance(b, V.Opaque):
             raise EngineLimit("ordering comparison with an unmodelled value")
         if isinstance(a, V.FractionV) or isinstance(b, V.FractionV):
@@ -454,6 +482,12 @@ class Lib:
         if isinstance(container, str):
             if isinstance(item, str):
                 return item in container
+            from . import strmodel as _sm
+
+            if _sm.ENABLED:
+                r = _sm.char_in_concrete(self.e, ctx, container, item)
+                if r is not None:
+                    return r
             return z3.Contains(z3.StringVal(container), item)
         if isinstance(container, z3.ExprRef) and z3.is_string(container):
             return z3.Contains(container, V.Str.unwrap(item))
@@ -513,6 +547,12 @@ class Lib:
             except IndexError:
                 raise self.raise_ext("IndexError")
         if isinstance(o, z3.ExprRef) and z3.is_string(o):
+            from . import strmodel as _sm
+
+            if _sm.ENABLED:
+                r = _sm.first_char(self.e, ctx, o, k)
+                if r is not None:
+                    return r
             kt = V.Int.unwrap(k)
             n = z3.Length(o)
             idx = z3.If(kt < 0, kt + n, kt)
@@ -657,6 +697,19 @@ class Lib:
             # int(Fraction) truncates toward zero
             t = x.term
             return z3.If(t >= 0, z3.ToInt(t), -z3.ToInt(-t))
+        if isinstance(x, OptV):
+            # int(None) raises TypeError
+            if ctx.decide(lift(self.e, ctx, x.is_none)):
+                raise self.raise_ext("TypeError")
+            return self.bi_int(ctx, x.val, base)
+        if isinstance(x, z3.ExprRef) and z3.is_string(x) and base is None:
+            from . import strmodel as _sm
+
+            if _sm.ENABLED:
+                ok, val = _sm.py_int_of_str(self.e, ctx, x)
+                if ctx.decide(z3.Not(ok)):
+                    raise self.raise_ext("ValueError", "int() of a string that is not an integer literal")
+                return val
         if isinstance(x, str):
             try:
                 return int(x) if base is None else int(x, base)
@@ -1173,6 +1226,26 @@ class Lib:
     bi_Fraction = bi_fractions_Fraction
     bi_frac = bi_fractions_Fraction
 
+    def bi_pathlib_Path(self, ctx, p):
+        if isinstance(p, V.PathV):
+            return p
+        raise EngineLimit("Path(%r)" % (p,))
+
+    bi_Path = bi_pathlib_Path
+    bi_pathlib_PurePath = bi_pathlib_Path
+
+    def path_attr(self, ctx, o, name):
+        P, S, I_ = V.PathSort, z3.StringSort(), z3.IntSort()
+        if name == "parent":
+            return V.PathV(self.e.uf("path!parent", P, P)(o.term))
+        if name in ("stem", "name", "suffix"):
+            return self.e.uf("path!" + name, P, S)(o.term)
+        if name == "parts":
+            ln = self.e.uf("path!nparts", P, I_)(o.term)
+            ctx.assume(ln >= 0)
+            return SymSeq(self.e.uf("path!parts", P, z3.ArraySort(I_, S))(o.term), ln, V.Str)
+        raise EngineLimit("path attribute %s" % name)
+
     def bi_typing_cast(self, ctx, t, v):
         return v
 
@@ -1191,6 +1264,10 @@ class Lib:
 
     @staticmethod
     def kind_of(o):
+        from . import strmodel as _sm
+
+        if isinstance(o, _sm.RegexV):
+            return "regex"
         if isinstance(o, V.GroupSlot):
             return "groupslot"
         if isinstance(o, V.GroupDict):
@@ -1278,6 +1355,13 @@ class Lib:
         if ctx.collector is not None and ctx.collector.owns(o):
             ctx.collector.add(ctx, o, x)
             return
+        if o.elem_sort == z3.IntSort() and (isinstance(x, str) or (isinstance(x, z3.ExprRef) and z3.is_string(x))):
+            from .loops import _is_empty_set
+
+            if not _is_empty_set(o.term):
+                raise EngineLimit("string added to a set of integers")
+            o.term = z3.K(z3.StringSort(), z3.BoolVal(False))  # `set()` literal: element type fixed by the first add
+            o.elem_sort = z3.StringSort()
         o.term = z3.Store(o.term, container_elem(o, x), z3.BoolVal(True))
 
     def m_set_issuperset(self, ctx, o, other):
@@ -1330,6 +1414,8 @@ class Lib:
         return z3.SuffixOf(V.Str.unwrap(p), V.Str.unwrap(o))
 
     def m_str_join(self, ctx, o, items):
+        if isinstance(items, SymSeq) and items.kind is V.Str and isinstance(o, str) and len(o) == 1:
+            return self.join_seq(ctx, o, items)
         xs = self.e.iter_concrete(ctx, items) if not isinstance(items, V.MappedIter) else None
         if xs is None:
             return V.Opaque("joined string")
@@ -1348,6 +1434,10 @@ class Lib:
         if isinstance(o, str) and isinstance(sep, str):
             return PyList(o.split(sep))
         if isinstance(o, z3.ExprRef) and z3.is_string(o) and isinstance(sep, str) and sep:
+            from . import strmodel as _sm
+
+            if _sm.ENABLED and len(sep) == 1:
+                return self.split_seq(ctx, o, sep)  # the string-model encoding (specs that call strmodel.enable())
             return self.split_symbolic(ctx, o, sep)
         raise EngineLimit("split of a symbolic string")
 
@@ -1367,6 +1457,48 @@ class Lib:
         ctx.assume(z3.Not(z3.Contains(z3.Select(arr, 0), sv)))
         return SymSeq(arr, n, V.Str, fresh=True)
 
+    def join_seq(self, ctx, sep: str, items: SymSeq):
+        """<one character>.join(seq of str): a string determined by the sequence, with the ASSUMED characteristic fact
+        that splitting it at the separator gives the sequence back when the sequence is non-empty and no element
+        contains the separator (str.join / str.split are mutually inverse there)."""
+        from .loops import mk_forall as _mkf
+
+        tag = "%x" % ord(sep)
+        S, I_ = z3.StringSort(), z3.IntSort()
+        j = self.e.uf("join!%s" % tag, z3.ArraySort(I_, S), I_, S)(items.arr, items.length)
+        sp = self.split_seq(ctx, j, sep)
+        k = z3.FreshConst(I_, "k")
+        sv = z3.StringVal(sep)
+        clean = _mkf([k], z3.Implies(z3.And(0 <= k, k < items.length), z3.Not(z3.Contains(z3.Select(items.arr, k), sv))))
+        same = _mkf([k], z3.Implies(z3.And(0 <= k, k < items.length), z3.Select(sp.arr, k) == z3.Select(items.arr, k)),
+                         patterns=[z3.Select(sp.arr, k)])
+        ctx.assume(z3.Implies(z3.And(items.length >= 1, clean), z3.And(sp.length == items.length, same)))
+        return j
+
+    def split_seq(self, ctx, o, sep: str):
+        """s.split(<one character>): canonical sequence split!<sep>(s) (a function of s) with the characteristic facts
+        ASSUMED from the definition of str.split: at least one component; no component contains the separator; exactly
+        one component iff s does not contain the separator, and then it is s; the separator count is len - 1;
+        s is the join of the components (stated for the first and the last component: s starts with c[0] and ends with
+        c[-1], each followed / preceded by the separator when there are several)."""
+        from .loops import mk_forall as _mkf
+
+        tag = "%x" % ord(sep)
+        S, I_ = z3.StringSort(), z3.IntSort()
+        arr = self.e.uf("split!%s!arr" % tag, S, z3.ArraySort(I_, S))(o)
+        ln = self.e.uf("split!%s!len" % tag, S, I_)(o)
+        sv = z3.StringVal(sep)
+        k = z3.FreshConst(I_, "k")
+        ctx.assume(ln >= 1)
+        ctx.assume((ln == 1) == z3.Not(z3.Contains(o, sv)))
+        ctx.assume(z3.Implies(ln == 1, z3.Select(arr, 0) == o))
+        ctx.add_axiom(_mkf([k], z3.Implies(z3.And(0 <= k, k < ln), z3.Not(z3.Contains(z3.Select(arr, k), sv))),
+                                patterns=[z3.Select(arr, k)]))
+        ctx.assume(z3.Implies(ln > 1, z3.And(z3.PrefixOf(z3.Concat(z3.Select(arr, 0), sv), o),
+                                             z3.SuffixOf(z3.Concat(sv, z3.Select(arr, ln - 1)), o))))
+        ctx.assume(z3.Length(o) >= ln - 1)
+        return SymSeq(arr, ln, V.Str, fresh=True)
+
     def m_str_encode(self, ctx, o, enc="utf8"):
         # ASSUMED (CPython): str.encode('utf8') raises UnicodeEncodeError iff the string contains a surrogate
         # code point (U+D800..U+DFFF); otherwise every code point < 0x80 becomes exactly one byte, others 2..4 bytes.
@@ -1385,6 +1517,22 @@ class Lib:
 
     def m_str_format(self, ctx, o, *a, **k):
         return V.Opaque("formatted")
+
+    def bi_re_compile(self, ctx, pattern, flags=0):
+        from . import strmodel as _sm
+
+        if not isinstance(pattern, str) or not isinstance(flags, int):
+            raise EngineLimit("re.compile of a non-constant pattern")
+        return _sm.compile_pattern(pattern, flags)
+
+    def m_regex_match(self, ctx, o, subject):
+        # a match object is truthy, None is not: modelled as an Optional whose presence is the match condition
+        from . import strmodel as _sm
+
+        c = _sm.match_term(self.e, ctx, o, subject)
+        if isinstance(c, bool):
+            return True if c else None
+        return OptV(z3.Not(c), True)
 
     def m_frac___pow__(self, ctx, o, x):
         raise EngineLimit("Fraction power")
